@@ -92,15 +92,54 @@ def accessCmd : List String → String
     | _, _, _, _, _, _, _, _, _ => "bad-op"
   | _ => "bad-op"
 
+def parseClient (s : String) : Option (Option IP) :=
+  if s = "bad" then some none
+  else match s.splitOn ":" with
+    | ["n", v] => v.toNat?.map fun n => some (normalizeIP n)
+    | _ => none
+
+def parseEntry (s : String) : Option AllowEntry :=
+  if s = "bad" then some .bad
+  else match s.splitOn ":" with
+    | ["s", v] => v.toNat?.map fun n => .single (normalizeIP n)
+    | ["c4", v] => match v.splitOn "/" with
+      | [b, o] => match b.toNat?, o.toNat? with
+        | some b, some o => some (.cidr (.v4 b) o)
+        | _, _ => none
+      | _ => none
+    | ["c6", v] => match v.splitOn "/" with
+      | [b, o] => match b.toNat?, o.toNat? with
+        | some b, some o => some (.cidr (.v6 b) o)
+        | _, _ => none
+      | _ => none
+    | _ => none
+
+def showOutcome : AuthOutcome → String
+  | .denied => "denied"
+  | .allowed id => s!"allowed {id.uid} {id.gid} [{natList id.aux}]"
+
+def authCmd : List String → String
+  | "allowed" :: client :: entries =>
+    match parseClient client, entries.mapM parseEntry with
+    | some c, some es => if hostAdmitted c es then "1" else "0"
+    | _, _ => "bad-op"
+  | "validate" :: client :: secure :: port :: flavor :: body :: sq :: entries =>
+    match parseClient client, secure.toNat?, port.toNat?, flavor.toNat?, fromHex body, fromHex sq, entries.mapM parseEntry with
+    | some c, some sec, some port, some fl, some body, some sq, some es =>
+      showOutcome (validateAuth Gen.maxXdrString Gen.maxAuxGids c es (sec == 1) port Gen.securePortBound fl body sq)
+    | _, _, _, _, _, _, _ => "bad-op"
+  | _ => "bad-op"
+
 structure St where
   dummy : Nat := 0
 
 def step (st : St) (line : String) : St × String :=
-  match (line.trimAscii.toString.splitOn " ").filter (· ≠ "") with
+  match (line.trimAscii.toString.splitOn " ").filter (fun t => t ≠ "" ∧ ¬ t.startsWith "#") with
   | "xdr" :: args => (st, xdrCmd args)
   | "rpc" :: args => (st, rpcCmd args)
   | "rm" :: args => (st, rmCmd args)
   | "access" :: args => (st, accessCmd args)
+  | "auth" :: args => (st, authCmd args)
   | ["reset"] => ({}, "ok")
   | _ => (st, "bad-op")
 
